@@ -6,7 +6,7 @@
 set -eu
 S=$(mktemp -d /tmp/fvcov.XXXXXX)
 B=$(dirname "$(rustup +nightly which rustc)")/../lib/rustlib/x86_64-unknown-linux-gnu/bin
-(cd /verif/harness && CARGO_NET_OFFLINE=true CARGO_TARGET_DIR=$S/target RUSTFLAGS="-C instrument-coverage" cargo +nightly build --offline --quiet 2>/dev/null)
+(cd /verif/harness && LLVM_PROFILE_FILE=$S/build-%p.profraw CARGO_NET_OFFLINE=true CARGO_TARGET_DIR=$S/target RUSTFLAGS="-C instrument-coverage" cargo +nightly build --offline --quiet 2>/dev/null)
 mkdir -p $S/prof
 python3 - "$S" <<'PY'
 import sys, os, subprocess
